@@ -493,7 +493,10 @@ func (rp recvProp) Generate(rng *rand.Rand, tier string, st *Stats) []Case {
 		var ops [][]string
 		for _, k := range kinds {
 			if k == "cut" {
-				ops = append(ops, []string{"cut", hx("<message id='trunc' ")})
+				// the stream ends inside a stanza: inside its start tag, inside its content, inside its end tag
+				forms := []string{"<message id='trunc' ", "<message id='trunc'><body>hal", "<presence id='trunc'><show>away</show></pres",
+					"<iq id='trunc' type='get'><query xmlns='jabber:iq:version'/>"}
+				ops = append(ops, []string{"cut", hx(forms[(len(ops)+len(kinds))%len(forms)])})
 			} else if k == "junk" {
 				ops = append(ops, []string{"cut", hx("<unknown xmlns='no:such:ns'/>")})
 			} else {
@@ -522,6 +525,16 @@ func (rp recvProp) Generate(rng *rand.Rand, tier string, st *Stats) []Case {
 		for _, n0 := range []int{0, 3} {
 			mk("client", "sm1", n0, append(append(seq([]string{"msg"}), recvOp("iq", hx("pend"), false)), seq([]string{"pres", "r", "msg", "r"})...))
 			mkResume("sm1", n0, append(append(seq([]string{"r", "msg"}), recvOp("iq", hx("pend"), false), recvOp("iq", hx("pend"), false)), seq([]string{"r"})...))
+		}
+	}
+	// the connection is lost in the middle of a stanza: not received, so not counted - neither in the Disconnected event
+	// nor in the resumption request that follows
+	if rp.id == "C09" {
+		for _, n0 := range []int{0, 3} {
+			for _, ks := range [][]string{{"msg", "pres", "r", "cut"}, {"msg", "r", "iq", "cut"}, {"cut"}, {"r", "msg", "msg", "cut"}, {"msg", "cut"}} {
+				mkResume("sm1", n0, seq(ks))
+				mk("client", "sm1", n0, seq(ks))
+			}
 		}
 	}
 	// corpus (witnesses of F-09, F-05, F-12)
